@@ -59,7 +59,37 @@ def run(kind, combos, cases, batching, ctor_shuffle, sow_shuffle, fresh):
     return None
 
 
+def uneven_fn(a, b=0, c=0):
+    import time
+    time.sleep(0.5 if a % 2 == 0 else 0.0)       # the first case of a batch finishes after the second when both run at once
+    return 100 * a + 10 * b + c
+
+
+def workers_case(batchsize, num_workers):
+    """the cases of a batch are computed in parallel and finish out of order: the reap must still be the direct run"""
+    with tmpdir() as d, quiet():
+        combos = {"a": [0, 1, 2, 3], "b": [0, 1]}
+        crop = xyz.Crop(fn=uneven_fn, name="w", parent_dir=d, batchsize=batchsize)
+        crop.sow_combos(combos)
+        from xyzpy.gen.cropping import grow
+        for b in range(1, crop.num_batches + 1):
+            grow(b, crop=crop, num_workers=num_workers, verbosity=0)      # as the cluster scripts do: the cases of one batch on several workers
+        got = crop.reap()
+        direct = xyz.combo_runner(fn, combos, verbosity=0)
+        if not same(got, direct):
+            return [f"reaped {got!r} but a direct run gives {direct!r}"]
+    return None
+
+
 tried = 0
+for bs, nw in ((4, 2), (8, 3)):
+    tried += 1
+    try:
+        pr = workers_case(bs, nw)
+    except Exception as e:
+        pr = [f"{type(e).__name__}: {e}"]
+    if pr:
+        finish(True, input=dict(kind="combos", combos={"a": [0, 1, 2, 3], "b": [0, 1]}, batchsize=bs, num_workers=nw, note="cases finish out of order"), observed=pr, tried=tried)
 for rep in range(40):
     n1, n2 = rnd.randint(1, 5), rnd.randint(1, 3)
     combos = {"b": list(range(n2)), "a": list(range(n1))} if rep % 2 else {"a": list(range(n1)), "b": list(range(n2))}
